@@ -56,9 +56,9 @@ fn normalise_doc(v: &Value) -> String {
 }
 
 /// Everything a read-only single-threaded program can observe on one shape.
-pub fn read_transcript<F: Fl>(n: usize, conns: &[(K, K)], seed: u64) -> Transcript {
+pub fn read_transcript<F: Fl>(n: usize, conns: &[(K, K)], seed: u64, equal_vals: bool) -> Transcript {
     let mut t: Transcript = Vec::new();
-    let vals: Vec<i8> = (0..n).map(|k| default_val(k as K)).collect();
+    let vals: Vec<i8> = if equal_vals { vec![0; n] } else { (0..n).map(|k| default_val(k as K)).collect() };
     let m = GModel::new(n, F::DIRECTED, conns, &vals);
     let w = build_world::<F>(&vals, conns);
     t.push(("observe".into(), g(w.observe().map(|o| strip(&o)))));
@@ -167,6 +167,7 @@ fn first_difference(a: &Transcript, b: &Transcript) -> Option<(String, String, S
 
 /// Label kind: the label with operands stripped, e.g. "n0.postorder.search_nodes".
 fn label_class(label: &str) -> String {
+    let label = label.trim_start_matches("[equal values] ");
     let l = label.split(" rejecting").next().unwrap_or(label);
     let l = l.split('#').next().unwrap_or(l);
     let mut out = String::new();
@@ -208,9 +209,13 @@ pub fn sweep_pair<P: Fl, S: Fl>(job: &Job, out: &mut Out) {
                 continue;
             }
             crate::progress::set_case(|| json!({"kind":"lockstep-read","flavour":S::NAME,"n":p.n,"conns":conns}).to_string());
-            let a = read_transcript::<P>(p.n, conns, 5);
+            let mut a = read_transcript::<P>(p.n, conns, 5, false);
             crate::progress::tick();
-            let b = read_transcript::<S>(p.n, conns, 5);
+            let mut b = read_transcript::<S>(p.n, conns, 5, false);
+            // a second pass with all node values equal (ties in the priority-first searches)
+            a.extend(read_transcript::<P>(p.n, conns, 5, true).into_iter().map(|(k, v)| (format!("[equal values] {}", k), v)));
+            crate::progress::tick();
+            b.extend(read_transcript::<S>(p.n, conns, 5, true).into_iter().map(|(k, v)| (format!("[equal values] {}", k), v)));
             out.stats.inc("shapes");
             out.stats.outcome(crate::report::digest(&format!("{:?}", a)));
             out.stats.add("evaluations", a.len() as u64);
@@ -308,8 +313,10 @@ pub fn replay_pair<P: Fl, S: Fl>(prop: &str, case: &Value) -> Vec<Violation> {
     let n = case["n"].as_u64().unwrap() as usize;
     if case["kind"] == "lockstep-read" {
         let conns: Vec<(K, K)> = serde_json::from_value(case["conns"].clone()).unwrap();
-        let a = read_transcript::<P>(n, &conns, 5);
-        let b = read_transcript::<S>(n, &conns, 5);
+        let mut a = read_transcript::<P>(n, &conns, 5, false);
+        let mut b = read_transcript::<S>(n, &conns, 5, false);
+        a.extend(read_transcript::<P>(n, &conns, 5, true).into_iter().map(|(k, v)| (format!("[equal values] {}", k), v)));
+        b.extend(read_transcript::<S>(n, &conns, 5, true).into_iter().map(|(k, v)| (format!("[equal values] {}", k), v)));
         println!("  graph {:?}: {} transcript entries", conns, a.len());
         if let Some((label, x, y)) = first_difference(&a, &b) {
             out.report(Violation { property: prop.into(), engine: "lockstep".into(), flavour: S::NAME.into(), class: format!("diverge/{}", label_class(&label)), what: format!("`{}` gives {} on {} but {} on {}", label, x, P::NAME, y, S::NAME), case: case.clone(), order: 0 });
